@@ -44,8 +44,12 @@ RULES = {
     "and the parser has to read back every text the library prints; a depth or count guard (the more so one whose counter is not "
     "wound back on every exit, so that it counts calls seen so far rather than nesting) refuses such text with ValueError - "
     "lengths compared with len(<text>) and arities compared with == / != are not limits",
+    "R12": "an expression becomes an int only when it is one: in SymbolicDim and Shape, every `int(<e>)` whose argument is (or is derived "
+    "from) the SymPy expression of a dimension (`._expr`, the result of `.subs(…)` / simplification, through locals) is governed by a test "
+    "that asks `is_integer` (`is_Integer`, `isinstance(…, sympy.Integer)`) - `int()` of a rational constant truncates towards zero, so a "
+    "dimension that simplifies to 1/2 would be stored as 0 and every later evaluation or arithmetic on it differs from the unsimplified one",
 }
-FLOORS = {"R1": 6, "R2": 3, "R3": 3, "R4": 6, "R5": 18, "R6": 2, "R7": 15, "R8": 3, "R9": 1, "R10": 1, "R11": 4}
+FLOORS = {"R1": 6, "R2": 3, "R3": 3, "R4": 6, "R5": 18, "R6": 2, "R7": 15, "R8": 3, "R9": 1, "R10": 1, "R11": 4, "R12": 1}
 EXPLANATION = (
     "Derives the printer-side vocabulary from the sympy constructors called in SymbolicDim's methods and the "
     "parser-side grammar (tiers, tokens, associativity, operator→SymPy form) from the recursive-descent parser's "
@@ -922,7 +926,55 @@ def rule_r11(ctx):
     ctx.require(n >= 4, f"only {n} raise statements found in the expression tokenizer / parser")
 
 
+def rule_r12(ctx):
+    n = 0
+    for cname in ("SymbolicDim", "Shape"):
+        k = ctx.repo.cls(f"onnx_ir._core:{cname}")
+        for f in ctx.repo.live(k.methods.values()):
+            if isinstance(f.node, ast.Lambda):
+                continue
+            # locals that hold (something derived from) a SymPy expression
+            sym = set()
+            for _ in range(3):
+                for a in own_nodes(f.node):
+                    if isinstance(a, (ast.Assign, ast.AnnAssign)) and getattr(a, "value", None) is not None and any(
+                            (isinstance(y, ast.Attribute) and y.attr in ("_expr", "subs", "simplify", "evalf", "doit")) or (isinstance(y, ast.Name) and y.id in sym)
+                            or (isinstance(y, ast.Call) and (dotted_of(y.func) or "").startswith("sympy.")) for y in ast.walk(a.value)):
+                        for t in (a.targets if isinstance(a, ast.Assign) else [a.target]):
+                            sym |= {y.id for y in ast.walk(t) if isinstance(y, ast.Name)}
+            for c in calls_in(f):
+                if not (dotted_of(c.func) == "int" and len(c.args) == 1):
+                    continue
+                arg = c.args[0]
+                if not any((isinstance(y, ast.Attribute) and y.attr == "_expr") or (isinstance(y, ast.Name) and y.id in sym) for y in ast.walk(arg)):
+                    continue
+                n += 1
+                tests = []
+                child, par = c, getattr(c, "_parent", None)
+                while par is not None:
+                    if isinstance(par, (ast.If, ast.IfExp, ast.While)):
+                        tests.append(par.test)
+                    for fld in ("body", "orelse"):
+                        blk = getattr(par, fld, None)
+                        if isinstance(blk, list) and any(child is st for st in blk):
+                            tests += [p_.test for p_ in blk[: next(i for i, st in enumerate(blk) if st is child)]
+                                      if isinstance(p_, ast.If) and p_.body and isinstance(p_.body[-1], (ast.Return, ast.Raise, ast.Continue))]
+                    if par is f.node:
+                        break
+                    child, par = par, getattr(par, "_parent", None)
+                asked = any(isinstance(y, ast.Attribute) and y.attr in ("is_integer", "is_Integer") for t in tests for y in ast.walk(t)) or any(
+                    isinstance(y, ast.Call) and dotted_of(y.func) == "isinstance" and "Integer" in norm(y) for t in tests for y in ast.walk(t))
+                ctx.check("R12", f"{f.local}: `{norm(c)[:40]}` converts an expression that is known to be an integer", asked, f, c,
+                          f"`{norm(c)[:50]}` turns a SymPy expression into an int without a test that it is an integer: a dimension that reduces to a rational constant "
+                          "(`N/(2*N)` -> 1/2, the literal `3/2`) is truncated towards zero (0, 1), so the simplified shape evaluates - and multiplies, rounds up - differently from "
+                          "the shape it was made from",
+                          how="int(<SymPy expression>) in SymbolicDim / Shape × governing tests that read is_integer / is_Integer / isinstance(…, Integer)",
+                          construct="int() of an expression not known to be an integer")
+    ctx.require(n >= 1, "no int(<expression>) conversion found in SymbolicDim / Shape")
+
+
 def run(ctx):
+    rule_r12(ctx)
     rule_r11(ctx)
     rule_r10(ctx)
     rule_r9(ctx)
